@@ -63,6 +63,20 @@ def long_text_inputs(seed, n, tier):
     return res
 
 
+def edge_pair_inputs(tier):
+    """every CR/LF/other pattern planted on two consecutive 512-octet window edges at once (an edge case of one
+    window can undo the handling of the other)"""
+    import itertools
+    res = []
+    pos = [511, 512, 1023, 1024] if tier != 'thorough' else [511, 512, 513, 1023, 1024, 1025]
+    for pat in itertools.product('CLX', repeat=len(pos)):
+        s = ['X'] * 1536
+        for p, ch in zip(pos, pat):
+            s[p] = ch
+        res.append({'s': s})
+    return res
+
+
 def eval_canon(run, inputs, name):
     """let TLC evaluate the specification function on harness-chosen inputs"""
     ipath = os.path.join(run.work, name + '_inputs.ndjson')
@@ -89,7 +103,10 @@ def c14(run):
         cases = [run.replay['source_case']]
     else:
         longs = eval_canon(run, long_text_inputs(run.seed, run.q(10, 40), run.tier), 'long')
-        cases = cases + longs
+        edges = eval_canon(run, edge_pair_inputs(run.tier), 'edgepairs')
+        for c in edges:
+            c['family'] = 'edgepairs'
+        cases = cases + longs + edges
     for i, c in enumerate(cases):
         c['ci'] = i
     body, summary, oks = run.harness('c14', cases)
@@ -200,6 +217,7 @@ def c17(run):
         n = run.validate_trace('TraceFraming', "CONSTANTS\n  Hdr = 6\n  Framings = {}\n  FillSizes = {1}\nSPECIFICATION TraceSpec\nINVARIANTS TraceInvariants\nCONSTRAINT Progress\nPOSTCONDITION Accepted\nCHECK_DEADLOCK FALSE\n",
                                tpath, 'tv_framing', 'c17.trace')
         run.notes['trace_validation'] = f'{n} recorded runs of the streaming literal reader accepted by TraceFraming'
+        run.notes['trace_validation_selftest'] = selftest_trace(run, 'TraceFraming', "CONSTANTS\n  Hdr = 6\n  Framings = {}\n  FillSizes = {1}\nSPECIFICATION TraceSpec\nINVARIANTS TraceInvariants\nCONSTRAINT Progress\nPOSTCONDITION Accepted\nCHECK_DEADLOCK FALSE\n", tpath, terminals=('eof',))
 
     run.distinct_nontrivial = summary['extra']['nontrivial']
     run.traces_validated = summary['evaluations']
@@ -265,13 +283,13 @@ CHECK_DEADLOCK FALSE
 """
 
 
-def selftest_trace(run, module, cfg, path):
+def selftest_trace(run, module, cfg, path, terminals=('eof',)):
     """corrupt one recorded field of the first 300 events and require that TLC rejects the trace"""
     recs = vlib.read_ndjson(path)[:300]
     # cut at a run boundary
     while recs and recs[-1].get('ev') not in ('eof', 'err'):
         recs.pop()
-    idx = [i for i, r in enumerate(recs) if r.get('ev') == 'err' and i > 0 and recs[i - 1].get('ev') == 'out']
+    idx = [i for i, r in enumerate(recs) if r.get('ev') in terminals and i > 0 and recs[i - 1].get('ev') == 'out']
     if not idx:
         return 'no suitable event'
     recs[idx[0] - 1] = dict(recs[idx[0] - 1], k=recs[idx[0] - 1]['k'] + 1)
@@ -327,6 +345,7 @@ def c03(run):
                                                 tbase + '.trace_v1.ndjson', 'tv_cfb', 'c03.trace_v1')
         run.notes['trace_validation'] = f'{run.recorded_runs} recorded runs of StreamDecryptor::v2 / ::v1 accepted by TraceAead / TraceCfb'
         # the binding is real: a trace with one recorded count changed must be rejected
+        run.notes['trace_validation_selftest_cfb'] = selftest_trace(run, 'TraceCfb', "CONSTANTS\n  P = 18\n  M = 22\n  B = 8192\n  NSet = {1}\n  AllDeletes = FALSE\n  FlipStride = 1\n  RelSizes = {1}\n  Modes = {\"streaming\", \"checkfirst\"}\n  MaxMsg = 1073741824\n  MdcChecked = TRUE\n" + tv_cfg, tbase + '.trace_v1.ndjson')
         run.notes['trace_validation_selftest'] = selftest_trace(run, 'TraceAead', "CONSTANTS\n  C = 64\n  T = 16\n  NSet = {1}\n  AllDeletes = FALSE\n  FlipStride = 1\n  HdrLen = 36\n  BindIdx = TRUE\n  NeedFinal = TRUE\n" + tv_cfg, tbase + '.trace_v2.ndjson')
     run.rule = ('AeadStream and CfbMdc are model-checked exhaustively at scaled constants (every flip / delete range / insert / '
                 'duplicate / swap / header change) and again at the real constants (chunk 64, tag 16; prefix 18, MDC 22, buffer '
@@ -424,7 +443,7 @@ def c01(run):
     ciphers = run.q(['aes128', 'cast5', 'twofish', 'camellia256'], ALL_CIPHERS)
     chunks = run.q([0, 6], [0, 1, 4, 6, 10, 14])
     partials = run.q([0, 512, 4096], [0, 512, 1024, 4096, 65536, 1048576])
-    g = run.mc('MCBuilderConfig', builder_cfg(ciphers, chunks, partials, run.q(9000, 70000), 'NestingSane GenPairs GenSweeps'), name='gen',
+    g = run.mc('MCBuilderConfig', builder_cfg(ciphers, chunks, partials, run.q(17000, 70000), 'NestingSane GenPairs GenSweeps'), name='gen',
                workers=1, timeout=900)
     cases = g.cases
     if run.replay and run.replay.get('source_case'):
